@@ -233,9 +233,33 @@ class Purity:
         return found
 
     def run_stream(self, docs):
+        open_known, _ = fw.load_known(self.ctx.pid)
+        shrunk = 0
         with H.WriteHooks() as hooks, H.PropertyCounter() as props:
             for text in docs:
                 for f in self.check_doc(text, hooks, props):
+                    k = json.dumps(f["key"], sort_keys=True)
+                    is_known = any(fw.key_matches(e["key"], f["key"]) for e in open_known)
+                    if k not in self.per_key and not is_known and shrunk < 6 and len(text) > 12:
+                        # first failure of a new kind: minimise the document (same key must keep failing)
+                        shrunk += 1
+                        saved_ties = set(self.tie_seen)
+                        self.tie_seen = self.tie_seen | set(range(100))  # silence tie messages while shrinking
+
+                        def still(cand, key=f["key"]):
+                            try:
+                                return any(g["key"] == key for g in self.check_doc(cand, hooks, props, record=False))
+                            except Exception:  # noqa: BLE001
+                                return False
+
+                        small = shrink(text, still)
+                        self.tie_seen = saved_ties
+                        if small != text:
+                            for g in self.check_doc(small, hooks, props, record=False):
+                                if g["key"] == f["key"]:
+                                    g["input"]["shrunk_from"] = text
+                                    f = g
+                                    break
                     self.fail(f["key"], f["input"], f["what"])
 
 
@@ -547,7 +571,10 @@ def _sched_runs(ctx, n_sched, n_steps, sample, serial, reqs, expect, descr, seen
 
                     def do_get(v=v):
                         val = _SOURCE_BYTES.get() if v == "b" else _SOURCE_PATH.get()
-                        return None if val is None else int(val.decode() if v == "b" else str(val))
+                        try:
+                            return None if val is None else int(val.decode() if v == "b" else str(val))
+                        except (ValueError, AttributeError, UnicodeDecodeError):
+                            return "foreign"  # a value nobody in this schedule set: leaked from elsewhere
 
                     val = w.call(do_get)
                     steps.append([t, "cget", v])
